@@ -25,7 +25,7 @@ DATA = ("copy_file_range", "write", "pwrite64", "writev")
 def gen_cases(tier, seed):
     n = 330 if tier == "quick" else 6000
     r = random.Random(seed * 67867979 + 15)
-    answers = ["kernel", "eopnotsupp", "einval", "exdev", "etxtbsy", "eio", "cloneok", "cloneok", "mixed", "mixed"]
+    answers = ["kernel", "eopnotsupp", "einval", "exdev", "etxtbsy", "eio", "cloneok", "cloneok", "mixed", "mixed", "enotty", "enosys"]
     for i in range(n):
         driver = ["parfile", "parblock"][i % 2]
         mode = ["never", "always", "auto"][(i // 2) % 3]
@@ -68,9 +68,9 @@ def run_case(case):
         ans = case["answer"]
         rules = []
         U = root + "/"
-        if ans in ("eopnotsupp", "einval", "exdev", "etxtbsy", "eio"):
+        if ans in ("eopnotsupp", "einval", "exdev", "etxtbsy", "eio", "enotty", "enosys"):
             rules.append({"id": "c", "sys": "ioctl", "iocmd": core.FICLONE, "under": U, "action": "fault",
-                          "errno": {"eopnotsupp": EOPNOTSUPP, "einval": EINVAL, "exdev": EXDEV, "etxtbsy": ETXTBSY, "eio": EIO}[ans]})
+                          "errno": {"eopnotsupp": EOPNOTSUPP, "einval": EINVAL, "exdev": EXDEV, "etxtbsy": ETXTBSY, "eio": EIO, "enotty": 25, "enosys": 38}[ans]})
         elif ans == "cloneok":
             rules.append({"id": "c", "sys": "ioctl", "iocmd": core.FICLONE, "under": U, "action": "cloneok"})
         elif ans == "mixed":
@@ -110,7 +110,8 @@ def run_case(case):
             elif ent["sys"] in DATA and p and p.startswith("dst"):
                 seqs.setdefault(p, []).append(("data", ent["seq"], ex.get("ret") if ex else None))
         res["counters"]["clone-requests-seen"] = nclone
-        unavailable = ans in ("kernel", "eopnotsupp", "einval", "exdev", "etxtbsy")
+        # (ENOTTY is what filesystems without the request answered before Linux 4.5, ENOSYS what a filter or an emulation layer answers)
+        unavailable = ans in ("kernel", "eopnotsupp", "einval", "exdev", "etxtbsy", "enotty", "enosys")
         if mode == "never":
             if nclone:
                 res["viol"].append({"sig": sig0 + ":clone-issued", "what": "--reflink=never but %d clone request(s) were issued; %s" % (nclone, tag)})
